@@ -148,6 +148,32 @@ def ops_for(t, tier):
     return ops
 
 
+def long_histories(t):
+    """hand-written long histories on ONE section object: a property is assigned dictionary-style, deleted, created
+    again under the same name (same type, other type, by assignment), assigned again; refused assignments in the
+    middle; every step is verified (a violation at any step is reported)"""
+    ops = {(o[0], o[1], o[2]): o for o in ops_for(t, "quick")}
+    u = [x for x in TYPES if x != t][0]
+
+    def o(*k):
+        return ops[k]
+    h0 = [o("create", "p", "list2"), o("dict-set", "p", "list"), o("dict-del", "p", "-"), o("create", "p", "list2"),
+          o("dict-set", "p", "list"), o("assign", "p", "list1"), o("dict-set", "p", "scalar"), o("dict-del", "p", "-"),
+          o("create", "p", "dtype"), o("dict-set", "p", "list"), o("clear", "p", "-"), o("dict-set", "q", "scalar"),
+          o("dict-set", "p", "scalar"), o("dict-del", "p", "-"), o("dict-set", "p", "list"), o("dict-set", "p", "scalar")]
+    h1 = [o("create", "p", "list3"), o("dict-set", "p", "scalar"), o("extend", "p", "list2"), o("dict-del", "p", "-"),
+          o("dict-set", "p", "list"), o("dict-set", "p", "scalar"), o("dict-del", "p", "-"), o("create", "p", "dtype"),
+          o("extend", "p", "list1"), o("dict-set", "p", "list"), o("reopen", "-", "-"), o("dict-set", "p", "scalar"),
+          o("dict-del", "p", "-"), o("create", "p", "list2"), o("dict-set", "p", "list"), o("attr", "p", "unit"),
+          o("dict-set", "p", "scalar"), o("clear", "p", "-"), o("dict-set", "p", "list")]
+    h2 = [o("create", "p", "list2"), o("dict-set", "p", "list"), o("dict-set", "p", "bad:pure"), o("dict-del", "p", "-"),
+          o("create", "p", "list2"), o("dict-set", "p", "bad:pure"), o("dict-set", "p", "list"), o("dict-del", "p", "-"),
+          ("create", "p", "other-type", [ONE[u]]), ("dict-set", "p", "bad:own-type-now-foreign", [ONE[t]]),
+          o("dict-del", "p", "-"), o("create", "p", "list3"), o("dict-set", "p", "list")]
+    return [h0, h1, h2]
+
+
+
 def BOUNDS(tier):
     return {"types": 4, "full_alphabet_depth": 2 if tier == "quick" else 3, "ops_per_type": len(ops_for("int", tier)),
             "reduced_alphabet_depth": 3 if tier == "quick" else 4, "reduced_ops": len(reduced_ops("int")),
@@ -177,6 +203,8 @@ def cases(tier):
         for n in (7, 8, 9, 16, 17, 100, 255, 256, 1000, 1024, 1025, 2049) if tier == "thorough" else (8, 9, 17, 300, 1100):
             yield {"k": "sizes", "type": t, "n": n}
         yield {"k": "sizes", "type": t, "n": 3, "soak": True}
+        for j in range(3):
+            yield {"type": t, "long": j, "tier": tier, "depth": 0, "first": 0}
     for t in TYPES:
         ops = ops_for(t, tier)
         for i in range(len(ops)):
@@ -532,7 +560,7 @@ def run_case(case):
             if ok:
                 ok = verify(r, sec, m, t, opk, "in-session")
             if not ok:
-                if not last:
+                if not last and "long" not in case:
                     del r.violations[nv:]
                     r.bump("pruned_after_earlier_violation")
                 return False
@@ -546,7 +574,7 @@ def run_case(case):
         pending = []
         depth = case["depth"]
         first_op = allops[case["first"]] if case["first"] < len(allops) else None
-        stack = [[first_op]]
+        stack = [[first_op]] if "long" not in case else [long_histories(t)[case["long"]]]
         while stack:
             hist = stack.pop()
             res = run_hist(hist)
